@@ -29,6 +29,7 @@ ASSUMPTIONS = ["record and question equality/hash are congruent (C20)"]
 T = "_x._tcp.local."
 T2 = "_y._tcp.local."
 D13_SIG = "C13:lookup-third-query-early"
+D13B_SIG = "C13:suppression-last-sighting-only"
 
 
 class Stub:
@@ -185,8 +186,10 @@ def run_svc(case, res):
         return frozenset((r.name.lower(), r.alias.lower()) for r in base if isinstance(r, type(extra)) and r.name.lower() == ty.lower()
                          and r.type == const._TYPE_PTR and r.class_ == const._CLASS_IN and not r.is_stale(t))
 
-    # the property's own bookkeeping, independent of the library: question -> (time of the last QM sighting, its known answers)
+    # the property's own bookkeeping, independent of the library's dict: question -> every QM sighting so far (time, known answers), in order.
+    # A sighting is a QM question this instance actually transmitted (read off the DNSOutgoing objects) or heard as a responder.
     spec = {}
+    early = []   # suppression verdicts of the asks before the final one
 
     def ask(t, base, qtype, final):
         z.cache = DNSCache()
@@ -196,15 +199,37 @@ def run_svc(case, res):
         outs_ = B.generate_service_query(z, float(t), set(case["types"]), case["multicast"], qmap[qtype])
         pairs.append(("c13svc %d %s %s %s %d %s" % (t, C.b01(qu_), pre_cache, pre_hist, len(types), " ".join(C.hs(x) for x in types)),
                       "%s || %s" % (outs_str(outs_, float(t)), hist_str(z.question_history))))
+        sent = {q.name.lower() for o_ in outs_ for q in o_.questions}
         expect = {}
         for ty in case["types"]:
             known = known_ids(base, ty, t)
-            e = spec.get(ty.lower())
-            sup_ = (not qu_) and e is not None and t - e[0] <= 999 and e[1] <= known
-            expect[ty] = (sup_, e)
-            if not qu_ and not sup_:
-                spec[ty.lower()] = (t, known)
+            sights = list(spec.get(ty.lower(), []))
+            # the sentence: SOME sighting within the previous 999 ms had a list we fully know
+            some_cov = (not qu_) and any(t - ts <= 999 and ks <= known for ts, ks in sights)
+            # what a history that keeps one entry per question can decide: the LAST sighting
+            last_cov = (not qu_) and bool(sights) and t - sights[-1][0] <= 999 and sights[-1][1] <= known
+            expect[ty] = {"some": some_cov, "last": last_cov, "sights": sights, "known": known}
+            if not final and not qu_:
+                v = suppression_verdict(ty, ty.lower() in sent, expect[ty], t)
+                if v:
+                    early.append(v)
+            if not qu_ and ty.lower() in sent:
+                spec.setdefault(ty.lower(), []).append((t, known))
         return outs_, qu_, expect
+
+    def suppression_verdict(ty, was_sent, e, t):
+        if e["some"] and was_sent:
+            if not e["last"]:
+                # finding D13b, exactly its class (`C13.LastSightingWorse`): a sighting within the window covers, a later sighting of the
+                # same question -- the one the dict kept -- does not
+                return (D13B_SIG, "QM question %s was sent at %d although it was asked/heard %s ms earlier with a known-answer list we fully know: a later "
+                        "sighting (%d ms earlier) with a list we do not cover has replaced it in the history (sightings: %s)"
+                        % (ty, t, [t - ts for ts, ks in e["sights"] if t - ts <= 999 and ks <= e["known"]], t - e["sights"][-1][0], [(t - ts, len(ks)) for ts, ks in e["sights"]]))
+            return ("C13:not-suppressed", "QM question %s asked %d ms after the same question was last asked/heard with a known-answer list we cover (earlier askers: %s)"
+                    % (ty, t - e["sights"][-1][0], prevs))
+        if not e["some"] and not was_sent:
+            return ("C13:wrongly-suppressed", "QM question %s was not asked at %d although no sighting of it within the previous 999 ms had a list we cover; earlier askers: %s" % (ty, t, prevs))
+        return None
 
     for idx, pv in enumerate(prevs):
         then = now - pv["gap"]
@@ -220,7 +245,7 @@ def run_svc(case, res):
                 if pv["qtype"] != "QU":
                     z.question_history.add_question_at_time(DNSQuestion(ty.upper() if pv.get("recase") else ty, const._TYPE_PTR, const._CLASS_IN),
                                                             float(then), known)
-                    spec[ty.lower()] = (then, ids_)
+                    spec.setdefault(ty.lower(), []).append((then, ids_))
         else:
             ask(then, base_of(pv["mode"]), pv["qtype"], False)
         if pv.get("expire_after") is not None:
@@ -253,18 +278,18 @@ def run_svc(case, res):
                 for name in list(asked):
                     if a.name.lower() == name.lower():
                         asked[name]["ka"].append((a.alias, a.ttl))
+    bad += early
     for ty in case["types"]:
         want = sorted((r.alias, int((r.created + 1000 * r.ttl - now) // 1000)) for r in cached
                       if r.name.lower() == ty.lower() and r.type == const._TYPE_PTR and r.class_ == const._CLASS_IN and now < r.created + 500 * r.ttl)
-        sup, entry = expect[ty]
         got = asked.get(ty)
-        if sup:
-            if got is not None:
-                bad.append(("C13:not-suppressed", "QM question %s asked %d ms after the same question was last asked/heard with a known-answer list we cover (earlier askers: %s)"
-                            % (ty, now - entry[0], prevs)))
-            continue
+        if not qu:
+            v = suppression_verdict(ty, got is not None, expect[ty], now)
+            if v:
+                bad.append(v)
         if got is None:
-            bad.append(("C13:wrongly-suppressed" if not qu else "C13:qu-suppressed", "question %s (qu=%s) was not asked; earlier askers: %s" % (ty, qu, prevs)))
+            if qu:
+                bad.append(("C13:qu-suppressed", "question %s (qu=%s) was not asked; earlier askers: %s" % (ty, qu, prevs)))
             continue
         if got["qu"] != (qu and case["multicast"]):
             bad.append(("C13:qu-bit", "question %s has QU bit %s, expected %s" % (ty, got["qu"], qu and case["multicast"])))
